@@ -50,6 +50,10 @@ Check(t) ==
          ELSE IF \E i \in J : vol(i) <= 0 THEN <<"volume-not-positive", "", Cardinality(J)>>
          ELSE IF \E i \in J : ~VolClose(vol(i), Vol(e, env(i))) THEN <<"volume-value", "", Cardinality(J)>>
          ELSE IF \E j \in DOMAIN t.single : t.single[j].vol_exc = "" /\ j \in J /\ ~VolClose(t.single[j].vol[1], Vol(e, env(j))) THEN <<"volume-value(single row)", "", Cardinality(J)>>
+         \* the same shape 1e6 / 2e6 units away from the origin has the same measure
+         ELSE IF "volfar_exc" \in DOMAIN t /\ t.volfar_exc \notin {"", "none"} THEN <<"volume-failed(far from the origin):" \o t.volfar_exc, "", Cardinality(J)>>
+         ELSE IF "volfar" \in DOMAIN t /\ t.volfar # <<>> /\ (Len(t.volfar) \notin {1, nrows}
+                    \/ \E i \in J : ~VolClose(IF Len(t.volfar) = 1 THEN t.volfar[1] ELSE t.volfar[i], Vol(e, env(i)))) THEN <<"volume-value(far from the origin)", "", Cardinality(J)>>
          ELSE IF t.uservol_exc # "" \/ \E i \in DOMAIN t.uservol : t.uservol[i] # 5 * 1024 THEN <<"user-set-volume-not-used", "", Cardinality(J)>>
          \* the volume of a product follows a volume the user sets on a factor later (3 * measure of the other factor)
          ELSE IF t.factorvol_exc \notin {"", "none"} THEN <<"product-volume-after-factor-override-failed", "", Cardinality(J)>>
